@@ -1175,7 +1175,12 @@ class Forget:
         import weakref
         sub = R["sub"]
         ids = [W.nodes[h].id for h in sub]
-        wrefs = [weakref.ref(W.nodes[h]) for h in sub]
+        def ref(o):
+            try:
+                return weakref.ref(o)
+            except TypeError:       # a node class without weak-reference support (__slots__)
+                return lambda: None
+        wrefs = [ref(W.nodes[h]) for h in sub]
         for h in sub:
             del W.h_of[id(W.nodes[h])]
             W.nodes[h] = None
@@ -1183,9 +1188,10 @@ class Forget:
         lost = []
         for h, i, wr in zip(sub, ids, wrefs):
             obj = Node.get_node_instance(i)
-            if obj is None or obj is not wr():
+            alive = wr()
+            if obj is None or (alive is not None and obj is not alive):
                 lost.append(h)
-                obj = wr()
+                obj = alive
             if obj is not None:
                 W.nodes[h] = obj
                 W.h_of[id(obj)] = h
